@@ -1745,7 +1745,7 @@ func (p *Parser) parseExpression(prec OpPrec) IExpr {
 		}
 		p.next()
 		left = &UnaryExpr{PreIncrToken, p.parseExpression(OpUnary)}
-		precLeft = OpUnary
+		precLeft = OpUpdate
 	case DecrToken:
 		if OpUpdate < prec {
 			p.fail("expression")
@@ -1753,7 +1753,7 @@ func (p *Parser) parseExpression(prec OpPrec) IExpr {
 		}
 		p.next()
 		left = &UnaryExpr{PreDecrToken, p.parseExpression(OpUnary)}
-		precLeft = OpUnary
+		precLeft = OpUpdate
 	case AwaitToken:
 		// either accepted as IdentifierReference or as AwaitExpression
 		if p.await && prec <= OpUnary {
